@@ -486,6 +486,29 @@ def vpSearchTop (dist : List K → List K → K) (items : Nat → List K) (root 
     List (Nat × K) :=
   sortBy (fun a b => decide (a.2 ≤ b.2)) (vpSearch dist items target k root ⟨none, []⟩).heap
 
+/-- `std::swap(items[lower], items[i])` on the segment `x :: rest`: the vantage point and the tail -/
+def vpSwap {α : Type} (x : α) (rest : List α) (i : Nat) : α × List α :=
+  match i with
+  | 0 => (x, rest)
+  | j + 1 => match rest[j]? with
+    | none => (x, rest)
+    | some y => (y, rest.set j x)
+
+/-- the node built from a chosen vantage point `vp` and the `tail` of its segment (`cnt` items in all); `recur` builds
+    the two subtrees -/
+def vpNodeOf (dist : List K → List K → K)
+    (recur : Nat → Nat → List (Nat × List K) → VpNode K × List (Nat × List K) × Nat)
+    (base draw cnt : Nat) (vp : Nat × List K) (tail : List (Nat × List K)) :
+    VpNode K × List (Nat × List K) × Nat :=
+  let sorted := sortBy (fun a b => decide (dist vp.2 a.2 ≤ dist vp.2 b.2)) tail
+  let medRel := cnt / 2 - 1      -- position of `median` inside the tail
+  let thr := match sorted[medRel]? with
+    | some m => dist vp.2 m.2
+    | none => 0
+  let L := recur (base + 1) (draw + 1) (sorted.take medRel)
+  let R := recur (base + 1 + medRel) L.2.2 (sorted.drop medRel)
+  (.node base thr L.1 R.1, vp :: (L.2.1 ++ R.2.1), R.2.2)
+
 /-- `buildFromPoints(lower, upper)` on the item segment, positions relative to `lower = base`.
     `pick cnt` models `(int)(uniform_random() * (upper-lower-1))`; `std::nth_element` is modelled by one admissible
     outcome (a stable sort of the tail by distance to the vantage point).  Returns the node and the reordered segment. -/
@@ -498,22 +521,9 @@ def vpBuild (dist : List K → List K → K) (pick : Nat → Nat → Nat) :
     | [x] => (.node base 0 .nil .nil, [x], draw)
     | x :: rest =>
       let cnt := rest.length + 1
-      let i := pick draw (cnt - 1)
       -- swap(items[lower], items[i])
-      let (vp, tail) : (Nat × List K) × List (Nat × List K) :=
-        match i with
-        | 0 => (x, rest)
-        | j + 1 => match rest[j]? with
-          | none => (x, rest)
-          | some y => (y, rest.set j x)
-      let sorted := sortBy (fun a b => decide (dist vp.2 a.2 ≤ dist vp.2 b.2)) tail
-      let medRel := cnt / 2 - 1      -- position of `median` inside the tail
-      let thr := match sorted[medRel]? with
-        | some m => dist vp.2 m.2
-        | none => 0
-      let (l, segL, draw1) := vpBuild dist pick fuel (base + 1) (draw + 1) (sorted.take medRel)
-      let (r, segR, draw2) := vpBuild dist pick fuel (base + 1 + medRel) draw1 (sorted.drop medRel)
-      (.node base thr l r, vp :: (segL ++ segR), draw2)
+      let pr := vpSwap x rest (pick draw (cnt - 1))
+      vpNodeOf dist (vpBuild dist pick fuel) base draw cnt pr.1 pr.2
 
 end Vp
 
